@@ -1,10 +1,14 @@
 #![no_main]
 use libfuzzer_sys::fuzz_target;
 
-// The fuzz bytes are the random stream of the C03 generator (proptest pass-through RNG); the oracle is
+// The fuzz bytes are decoded into a C03 case (byte decoders in harness/src/bytes.rs); the oracle is
 // the property's own check.  On a violation the shrunk-by-libFuzzer input is saved by libFuzzer and the
 // decoded case is written as a JSON replay for `./check C03 --replay`.
 fuzz_target!(|data: &[u8]| {
+    // libfuzzer-sys installs a hook that aborts on any panic; the oracles catch expected panics
+    // (out-of-band writes, evaluation budgets, crate panics reported as verdicts) themselves
+    static QUIET: std::sync::Once = std::sync::Once::new();
+    QUIET.call_once(|| std::panic::set_hook(Box::new(|_| {})));
     if let Some((case, msg)) = vf::fuzz_one("C03", data) {
         let dir = std::env::var("VERIF_DIR").unwrap_or_else(|_| "/verif".into());
         let h = vf::util::fnv64(case.as_bytes());
